@@ -102,6 +102,8 @@ class ToyObs(BaseSpectrum):
         self._values = {}
         for p in params:
             self._values[p['name']] = p['value']
+            if p.get('inflate'):
+                continue
             self.add_fittable_param(p['name'], '$%s$' % p['name'],
                                     _mk_get(p['name']), _mk_set(p['name']),
                                     p['mode'], p['fit'], list(p['bounds']))
@@ -111,7 +113,22 @@ class ToyObs(BaseSpectrum):
                                    d['compute'])
         self._x = np.asarray(x, dtype=float)
         self._y = np.asarray(y, dtype=float)
-        self._yerr = np.asarray(yerr, dtype=float)
+        self._yerr0 = np.array(yerr, dtype=float)
+        self._yerr = np.array(yerr, dtype=float)
+        self._inflate = [p['name'] for p in params if p.get('inflate')]
+        for p in params:
+            if p.get('inflate'):
+                # an error-inflation parameter: rescales the error bars (in
+                # place, the array object stays the same) and leaves the data
+                name = p['name']
+
+                def fset(obs, value, name=name):
+                    obs._values[name] = value
+                    obs._yerr[...] = obs._yerr0 * value
+                self.add_fittable_param(name, '$%s$' % name, _mk_get(name),
+                                        fset, p['mode'], p['fit'],
+                                        list(p['bounds']))
+                self._yerr[...] = self._yerr0 * p['value']
 
     def create_binner(self):
         from taurex.binning import NativeBinner
@@ -119,7 +136,8 @@ class ToyObs(BaseSpectrum):
 
     @property
     def spectrum(self):
-        off = sum(self._values.values()) if self._values else 0.0
+        off = sum(v for k, v in self._values.items()
+                  if k not in self._inflate) if self._values else 0.0
         return self._y + off
 
     @property
@@ -162,12 +180,46 @@ def build_toy(cfg):
 # Reference prior maps (independent of taurex.core.priors)
 # --------------------------------------------------------------------------
 
+_plugin_prior = None
+
+
+def ln_uniform_class():
+    """A plug-in prior as a user may write one against the public Prior base
+    class: uniform in the natural logarithm of the parameter.  Its space is
+    its own (neither 'linear' nor log10): sample() returns ln x, prior() maps
+    back with exp."""
+    global _plugin_prior
+    if _plugin_prior is None:
+        from taurex.core.priors import Prior
+
+        class LnUniform(Prior):
+            def __init__(self, bounds=(0.0, 1.0)):
+                super().__init__()
+                self._lo, self._hi = min(bounds), max(bounds)
+
+            def sample(self, x):
+                return self._lo + x * (self._hi - self._lo)
+
+            def prior(self, value):
+                return math.exp(value)
+
+            def params(self):
+                return 'ln bounds = [%s, %s]' % (self._lo, self._hi)
+
+            def boundaries(self):
+                return self._lo, self._hi
+        _plugin_prior = LnUniform
+    return _plugin_prior
+
+
 def make_prior(spec):
-    """spec: {'kind': 'Uniform'|'LogUniform'|'Gaussian'|'LogGaussian',
-              'args': {...}}  -> taurex prior object"""
+    """spec: {'kind': 'Uniform'|'LogUniform'|'Gaussian'|'LogGaussian'|
+              'LnUniform' (plug-in), 'args': {...}}  -> taurex prior object"""
     from taurex.core import priors
     kind = spec['kind']
     a = spec['args']
+    if kind == 'LnUniform':
+        return ln_uniform_class()(bounds=list(a['bounds']))
     if kind == 'Uniform':
         return priors.Uniform(bounds=list(a['bounds']))
     if kind == 'LogUniform':
@@ -185,6 +237,9 @@ def make_prior(spec):
 
 
 def ref_prior_is_log(spec):
+    """'ln' for the plug-in prior (truthy: not the linear space)."""
+    if spec['kind'] == 'LnUniform':
+        return 'ln'
     return spec['kind'] in ('LogUniform', 'LogGaussian')
 
 
@@ -194,7 +249,7 @@ def ref_prior_bounds(spec):
     from statistics import NormalDist
     kind = spec['kind']
     a = spec['args']
-    if kind in ('Uniform', 'LogUniform'):
+    if kind in ('Uniform', 'LogUniform', 'LnUniform'):
         if 'lin_bounds' in a:
             b = [math.log10(x) for x in a['lin_bounds']]
         else:
@@ -213,7 +268,7 @@ def ref_prior_sample(spec, u):
     from statistics import NormalDist
     kind = spec['kind']
     a = spec['args']
-    if kind in ('Uniform', 'LogUniform'):
+    if kind in ('Uniform', 'LogUniform', 'LnUniform'):
         lo, hi = ref_prior_bounds(spec)
         return lo + u * (hi - lo)
     if 'lin_mean' in a:
@@ -224,6 +279,8 @@ def ref_prior_sample(spec, u):
 
 
 def ref_to_linear(is_log, v):
+    if is_log == 'ln':
+        return math.exp(v)
     return 10 ** v if is_log else v
 
 
